@@ -1,11 +1,13 @@
-import Cirbo.Proofs.Norm
+import Cirbo.Proofs.Denorm
 /-!
 # C17 — Shipped circuit databases are correct and lookups return the requested function
 
 -- OBLIGATION: c17_normalize_denormalize_roundtrip
 -- OBLIGATION: c17_normalized_outputs_start_false
 -- OBLIGATION: c17_sort_is_permutation
--- PARTIAL: proved (for every table, any number of outputs and rows): normalisation followed by denormalisation is the identity on the outputs' truth tables (negation, stable sort, duplicate removal and their inverses). The quantifier over the 2 x 349,724 shipped entries is a finite table: it is discharged by executing the code's and the Lean model's decoder + evaluator + well-formedness checker over the entries (quick: every entry with <= 2 inputs plus a seeded sample; thorough: all), not by a kernel proof. The circuit-level denormalize (labels, order_outputs, not_ gates) is modelled one-to-one and compared field by field; the don't-care lookup (all completions, smallest hit) is checked on the real databases by the search.
+-- OBLIGATION: c17_denormalize_circuit
+-- OBLIGATION: c17_lookup_entry_correct
+-- PARTIAL: proved (for every table, any number of outputs and rows): normalisation followed by denormalisation is the identity on the outputs' truth tables (negation, stable sort, duplicate removal and their inverses); and at circuit level: denormalize(circuit) leaves the inputs alone and puts the denormalised values on the outputs (reused / fresh not_<o> gates), so an entry whose stored circuit computes the normalised table yields a circuit computing the requested table in the requested output order (c17_lookup_entry_correct). The quantifier over the 2 x 349,724 shipped entries ('the stored circuit computes its key') is a finite table: it is discharged by executing the code's and the Lean model's decoder + evaluator + well-formedness checker over the entries (quick: every entry with <= 2 inputs plus a seeded sample; thorough: all), not by a kernel proof. That denormalize never raises on a matching entry, and the don't-care lookup (all completions, smallest hit), are checked on the real databases by the search and the correspondence.
 -/
 namespace Cirbo
 open Norm
@@ -43,6 +45,37 @@ theorem c17_sort_is_permutation (rows : List Row) :
   have hperm := sortBy_perm (fun (a b : Nat × Row) => rowLt a.2 b.2) (rows.zipIdx.map (fun ri => (ri.2, ri.1)))
   rw [← (enumerate_spec rows).1]; exact hperm.map _
 
+/-- **`NormalizationInfo.denormalize(circuit)`** (any recorded parameters, any well-formed circuit in which
+a gate named `not_<o>` — if there is one — is the negation of `o`): the input list is untouched, the
+result is well formed, and every valuation of the stored circuit extends to one of the result whose
+output values are the denormalised values (`denormVec`: undo duplicate removal, undo the sort, negate)
+of the stored circuit's output values -/
+theorem c17_denormalize_circuit {info : Info} {c c' : Circuit} (hw : WFS c) (hn : NotOK c)
+    (h : denormalizeCircuit info c = .ok c') :
+    c'.inputs = c.inputs ∧ WFS c' ∧
+    ∀ b v, IsValB c b v → ∃ v', IsValB c' b v' ∧ (∀ l ∈ c.labels, v' l = v l) ∧
+      denormVec (v "") info (c.outputs.map v) = .ok (c'.outputs.map v') :=
+  denormalizeCircuit_sem hw hn h
+
+/-- **a looked-up entry computes the requested table**: `tt` is the requested table (one row per
+output), `info = normalize tt` its normalisation (whose `table` is the database key), `c` the stored
+circuit. If `c` computes the key on an input assignment (column `j`), the circuit `denormalize`
+returns computes column `j` of `tt` — every output, in the requested order, through negation,
+reordering and duplicates — on the same inputs -/
+theorem c17_lookup_entry_correct {tt : List Row} {info : Info} {c c' : Circuit} (hnorm : normalize tt = .ok info)
+    (hw : WFS c) (hn : NotOK c) (hd : denormalizeCircuit info c = .ok c') (j : Nat)
+    (hrows : ∀ r ∈ tt, j < r.length) {b v : Label → Bool} (hv : IsValB c b v)
+    (hstored : c.outputs.map v = col j info.table) :
+    ∃ v', IsValB c' b v' ∧ c'.outputs.map v' = col j tt ∧ c'.inputs = c.inputs :=
+  lookup_entry_correct hnorm hw hn hd j hrows hv hstored
+
+open GateType in
+/-- non-vacuity: a stored AND gate, asked for [NAND, AND, NAND] -/
+example : ((normalize [[true, true, true, false], [false, false, false, true], [true, true, true, false]]).toOption.bind
+    (fun info => (denormalizeCircuit info
+      ⟨[⟨"0", INPUT, []⟩, ⟨"1", INPUT, []⟩, ⟨"2", AND, ["0", "1"]⟩], ["0", "1"], ["2"], [("0", ["2"]), ("1", ["2"])], []⟩).toOption.map
+      (fun c => (c.outputs, c.gates.length)))) = some (["not_2", "2", "not_2"], 4) := by decide
+
 /-! Non-vacuity: three outputs with a complement pair and a rotation of the sorted order -/
 example : (normalize [[false, true, true, false], [true, false, false, true], [false, false, false, true]]).toOption.map
     (fun i => (i.negations, i.permutation, i.mapping, label i.table)) =
@@ -51,5 +84,7 @@ example : (normalize [[false, true, true, false], [true, false, false, true], [f
 #print axioms c17_normalize_denormalize_roundtrip
 #print axioms c17_normalized_outputs_start_false
 #print axioms c17_sort_is_permutation
+#print axioms c17_denormalize_circuit
+#print axioms c17_lookup_entry_correct
 
 end Cirbo
